@@ -48,9 +48,94 @@ def literal_error_msg_sites(ctx):
                      sample={"call": ast.unparse(n)[:120]})
 
 
+def node_wiring(ctx):
+    """call-site preconditions of the node tree builder (shroud/ast.py), decided on the real source:
+    (a) add_declarations rejects (RuntimeError) a parent that cannot hold declarations before it uses it;
+    (b) every attribute BlockNode.__init__ reads from its parent is assigned by the __init__ of every class that can be
+        such a parent (the NamespaceMixin classes), or is read with a default."""
+    import ast
+    import os
+    from checklib import REPO
+    tree = ast.parse(open(os.path.join(REPO, "shroud/ast.py")).read())
+    classes = dict((n.name, n) for n in tree.body if isinstance(n, ast.ClassDef))
+    funcs = dict((n.name, n) for n in tree.body if isinstance(n, ast.FunctionDef))
+    mix = sorted(c for c, n in classes.items() if any(isinstance(b, ast.Name) and b.id == "NamespaceMixin" for b in n.bases))
+    # (a)
+    f = funcs.get("add_declarations")
+    guard_line, use_line = None, None
+    for n in ast.walk(f) if f else []:
+        if isinstance(n, ast.If) and "isinstance(parent, NamespaceMixin)" in ast.unparse(n.test) and any(
+                isinstance(x, ast.Raise) for x in n.body):
+            guard_line = n.lineno if guard_line is None else min(guard_line, n.lineno)
+        if isinstance(n, ast.Call) and ((isinstance(n.func, ast.Name) and n.func.id == "BlockNode") or (
+                isinstance(n.func, ast.Attribute) and n.func.attr == "add_declaration")):
+            use_line = n.lineno if use_line is None else min(use_line, n.lineno)
+    ctx.item("C17/S1/add_declarations:parent-checked-before-use", bool(f) and guard_line is not None and use_line is not None
+             and guard_line < use_line,
+             "add_declarations must raise RuntimeError for a parent that is not a NamespaceMixin before it constructs a "
+             "BlockNode on it or calls parent.add_declaration (guard at %r, first use at %r)" % (guard_line, use_line),
+             confirm=lambda: ctx.monitor("m_yaml", "search", 400, ctx.seed))
+    # (b)
+    blk = classes.get("BlockNode")
+    init = [m for m in blk.body if isinstance(m, ast.FunctionDef) and m.name == "__init__"][0] if blk else None
+    reads = set()
+    for n in ast.walk(init) if init else []:
+        if isinstance(n, ast.Attribute) and isinstance(n.value, ast.Name) and n.value.id == "parent" and isinstance(n.ctx, ast.Load):
+            reads.add(n.attr)
+    ctx.item("C17/S1/BlockNode.__init__:reads-found", len(reads) >= 5 and len(mix) >= 3, "vacuity guard: %r %r" % (sorted(reads), mix))
+
+    def provides(cname, attr, seen=()):
+        n = classes.get(cname)
+        if n is None or cname in seen:
+            return False
+        for m in n.body:
+            if isinstance(m, ast.FunctionDef) and m.name == attr:
+                return True
+            if isinstance(m, ast.Assign) and any(isinstance(t, ast.Name) and t.id == attr for t in m.targets):
+                return True
+            if isinstance(m, ast.FunctionDef) and m.name == "__init__":
+                # assigned by __init__ or by a method __init__ calls on self (transitively)
+                methods = dict((k.name, k) for k in n.body if isinstance(k, ast.FunctionDef))
+                for b_ in n.bases:
+                    if isinstance(b_, ast.Name) and b_.id in classes:
+                        for k in classes[b_.id].body:
+                            if isinstance(k, ast.FunctionDef):
+                                methods.setdefault(k.name, k)
+                todo, done = [m], set()
+                while todo:
+                    fn = todo.pop()
+                    if fn.name in done:
+                        continue
+                    done.add(fn.name)
+                    for x in ast.walk(fn):
+                        if isinstance(x, ast.Attribute) and isinstance(x.value, ast.Name) and x.value.id == "self" \
+                                and x.attr == attr and isinstance(x.ctx, ast.Store):
+                            return True
+                        if isinstance(x, ast.Call) and isinstance(x.func, ast.Attribute) and isinstance(x.func.value, ast.Name) \
+                                and x.func.value.id == "self" and x.func.attr in methods:
+                            todo.append(methods[x.func.attr])
+        return any(provides(b.id, attr, seen + (cname,)) for b in n.bases if isinstance(b, ast.Name))
+    for cname in mix:
+        for attr in sorted(reads):
+            ctx.item("C17/S1/BlockNode(parent=%s).%s" % (cname, attr), provides(cname, attr),
+                     "BlockNode.__init__ reads parent.%s but %s never assigns it: a block inside a %s raises AttributeError"
+                     % (attr, cname, cname), sample={"parent_class": cname, "attribute": attr},
+                     confirm=lambda: ctx.monitor("m_yaml", "search", 400, ctx.seed))
+
+
 def run(ctx):
     ctx.pyvc(G.UNITS + P.UNITS, MONITORS)
     literal_error_msg_sites(ctx)
+    node_wiring(ctx)
+    # bounded stand-in for the YAML structure (never counted as proved)
+    r = ctx.monitor("m_yaml", "search", 400, ctx.seed)
+    ctx.bounded.append({"monitor": "m_yaml", "inputs_tried": r["tried"], "violation": r["violation"],
+                        "kind": "bounded: real pipeline on 12 parent kinds x 15 child shapes (block/declarations nesting, wrong-typed "
+                                "decl/options/format/attrs/declarations) and 14 wrong-typed top-level keys: only RuntimeError / "
+                                "SystemExit may escape, documented nestings are accepted",
+                        "bound": "%d descriptions" % r["tried"]})
+    if r["violation"]:
+        ctx.violation("bounded/m_yaml", {"inputs": r["inputs"], "observed": r["violation"]}, True)
     ctx.trusted += [
         "pyvc, z3 5.1, cvc5 1.0.3; attribute values range over PyVal = None | bool | int | str | other(float)",
         "declast.check_dimension / generate.check_implied: trusted contracts (need a str, may raise RuntimeError)",
